@@ -238,12 +238,7 @@ def run(ctx):
         "RunAfterDays is driven once per date",
     ]
     names = sorted(WINDOWS)
-    if ctx.tier == "quick":
-        k = ctx.seed % len(names)
-        use = [names[k], names[(k + 1) % len(names)], "newyear_2018_19"]
-        use = sorted(set(use))
-    else:
-        use = names
+    use = names
     subsets = [b for b in range(256) if bin(b).count("1") >= 2]
     items = []
     for w in use:
@@ -264,7 +259,7 @@ def run(ctx):
         for n_ in range(1, nmax + 1):
             for off in range(n_):
                 citems.append({"kind": "RunEveryNPeriods", "n": n_, "offset": off, "repeat": rep})
-        for ds in (["2019-12-31"], ["2020-01-02", "2020-01-07"], ["2020-01-01"], ["2019-12-30", "2020-01-09", "2022-01-01"]):
+        for ds in (["2019-12-31"], ["2020-01-02", "2020-01-07"], ["2020-01-01"], ["2019-12-30", "2020-01-09", "2022-01-01"], ["2020-01-07", "2019-12-31", "2020-01-03"], ["2020-01-08", "2020-01-08", "2019-12-30"]):
             citems.append({"kind": "RunOnDate", "dates": ds, "repeat": rep})
     for d in ("2019-12-29", "2019-12-30", "2020-01-01", "2020-01-02", "2020-01-09", "2020-02-01"):
         citems.append({"kind": "RunAfterDate", "date": d})
